@@ -73,6 +73,7 @@ def corpus(tier):
     # optional arguments and results: the wire form of a request must not depend on the argument values (positional codecs)
     svc('Opt', [m('find', [('query', 'Option<String>'), ('page', 'u32')], 'Option<String>'), m('tags', [('a', 'Option<u8>'), ('b', 'std::option::Option<u16>'), ('c', 'Vec<u8>')], 'Vec<u8>'),
                 m('last', [('only', 'Option<bool>')])])
+    svc('Solo', [m('only', [('a', 'u8'), ('b', 'String')], 'String')])      # one method: one-variant enums are matched without a discriminant test
     svc('Six', [m('m%d' % i, [('p%d' % j, 'u32') for j in range(i % 5)], 'u32') for i in range(6)])
     if tier == 'thorough':
         tys = ['u8', 'String', 'bool', 'Vec<u8>']
@@ -226,7 +227,7 @@ def validate(R, F, P, idx, s):
                 if pr and all(('v', V) in p and ('t', 'await') in p for r, p in pr):
                     # guarded by the matching variant of the awaited response
                     pred = lambda x: any(('t', 'await') in p for _, p in P.root(x))
-                    if guarded_by_variant(F, P, b, i, pred, [V]):
+                    if len(resp['variants']) == 1 or guarded_by_variant(F, P, b, i, pred, [V]):     # a one-variant enum is matched without a test
                         good += 1
             ok = good == 1 and len(oks) == 1
         R.ob('C17.client', key('unwraps the same response variant', me), ok, 'the client returns the payload of %sResponse::%s of the awaited reply (and nothing else)' % (svc, V), [cm.loc(cm.d)])
@@ -248,7 +249,7 @@ def validate(R, F, P, idx, s):
             bb, t = calls[0]
             n += 1
             is_req = lambda x: any(r[0] == 'param' and 'Request' in sb_param_ty(F, r) for r, _ in P.root(x))
-            ok = bool(guarded_by_variant(F, P, sb, bb, is_req, [V]))
+            ok = len(req['variants']) == 1 or bool(guarded_by_variant(F, P, sb, bb, is_req, [V]))
             if not ok:
                 det += 'not on the %s arm; ' % V
             a = t['args']
